@@ -72,7 +72,7 @@ RECURSIVE Settle(_, _)
 Settle(R, X) ==
   IF X.bad # "" \/ Len(X.fr) = 0 THEN X
   ELSE LET top == X.fr[Len(X.fr)] IN
-    IF X.pc < Len(R.fns[top.f + 1]) THEN X
+    IF top.f # -2 /\ X.pc < Len(R.fns[top.f + 1]) THEN X
     ELSE IF X.sh # top.sb + 1 THEN [X EXCEPT !.bad = "exit_height"]
     ELSE LET rest == SubSeq(X.fr, 1, Len(X.fr) - 1) IN
          IF Len(rest) = 0
@@ -114,6 +114,11 @@ StepObs(R, s) ==
                ELSE <<P([fr EXCEPT ![Len(fr)].f = o2[1]], 0, sh - 1,
                         top.lb + (IF o2[1] >= 0 THEN CapsOf(R, o2[1]) ELSE 0),
                         IF h # 2 THEN "tailcall_height" ELSE "")>>
+                    \* ... or the callee has no instructions (`#'int`; never observed, so it is
+                    \* not among the trace's functions: the pseudo function -2): its frame is
+                    \* exhausted at once and popped in the same step
+                    \o <<P([fr EXCEPT ![Len(fr)].f = -2], 0, sh - 1, top.lb,
+                           IF h # 2 THEN "tailcall_height" ELSE "")>>
           [] op = "Select" ->
                IF ~s.sel THEN <<P(fr, pc, sh - 1, ll, "")>>           \* takes the sources
                ELSE <<P(fr, pc, sh, ll, ""),                           \* still waiting
